@@ -347,11 +347,12 @@ def searchLoop (f : Nat → Bool) : Nat → Nat → Nat → Nat
 
 def sortSearch (n : Nat) (f : Nat → Bool) : Nat := searchLoop f n 0 n
 
-/-- transport.go findMetadataTopic -/
+/-- transport.go findMetadataTopic; the search predicate and the final test are regenerated from the source
+(`Gen.Routing.searchPred`, today `elem ≥ target`; `searchHit`, `elem = target`) -/
 def findTopic (topics : List MTopic) (name : String) : Option Nat :=
-  let i := sortSearch topics.length (fun i => match topics[i]? with | some t => decide (name ≤ t.name) | none => true)
+  let i := sortSearch topics.length (fun i => match topics[i]? with | some t => KV.Gen.Routing.searchPred t.name name | none => true)
   match topics[i]? with
-  | some t => if t.name == name then some i else none
+  | some t => if KV.Gen.Routing.searchHit t.name name then some i else none
   | none => none
 
 /-- UnknownTopicOrPartition -/
